@@ -11,6 +11,7 @@ import (
 	"fmt"
 	"math/rand"
 	"os"
+	"strings"
 	"sync"
 	"sync/atomic"
 	"time"
@@ -19,6 +20,7 @@ import (
 	"github.com/kardiachain/go-kardia/consensus"
 	"github.com/kardiachain/go-kardia/lib/p2p"
 	cmn "github.com/kardiachain/go-kardia/lib/common"
+	"github.com/kardiachain/go-kardia/lib/rlp"
 	kproto "github.com/kardiachain/go-kardia/proto/kardiachain/types"
 	"github.com/kardiachain/go-kardia/trie"
 	"github.com/kardiachain/go-kardia/types"
@@ -82,7 +84,7 @@ func (rn *Runner) describe() {
 		rn.run.Distinct("victim_step", rs.Step.String())
 		rn.run.Distinct("victim_state", fmt.Sprintf("%v r%d prop=%v locked=%v", rs.Step, minU32(rs.Round, 3), rs.Proposal != nil, rs.LockedBlock != nil))
 	}
-	rn.run.Distinct("env_mode", e.Mode)
+	rn.run.Distinct("env_mode", fmt.Sprintf("%s pex-seed=%v", e.Mode, e.SeedMode))
 }
 
 func minU32(a, b uint32) uint32 {
@@ -151,7 +153,11 @@ func Main() {
 			scratchRoot = d
 		}
 	}
-	r.SetRule("evaluation = one message handed to Reactor.Receive of a reactor built as in production around a live node (4-validator simulated network; victim caught up at some consensus step, or fast-syncing), sent by a stub peer connected through the real switch; non-trivial = a mutated message (distinct reactor, type, mutation, peer-state prelude) that passed decoding and validation, i.e. reached the handler with live state instead of being rejected at the door")
+	r.SetRule("evaluation = one message handed to Reactor.Receive of a reactor built as in production around a live node (4-validator simulated network; victim caught up at some consensus step, at the initial height, or fast-syncing), sent by a stub peer connected through the real switch (+ one raw frame written to a real MConnection in group mconn, + one encode/decode round trip of a generated well-formed message in group roundtrip, + one block pair given to the block-sync processor in group blocksync-processor); non-trivial = a distinct mutated message (reactor, type, mutation, peer-state prelude) that passed decoding and validation, i.e. reached the handler and the live state instead of being refused at the door, or a frame sequence whose outcome the reference model predicted exactly")
+	r.Assume("the attacker is any network peer and additionally holds the key of ONE of the four validators (index 3): messages that need a validator signature are signed with that key; honest validators' messages are only replayed")
+	r.Assume("messages longer than the channel's RecvMessageCapacity are not handed to Receive (the connection layer refuses them: judged in group mconn)")
+	r.Assume("wall clock is used only in watchdogs that decide 'hang' (30 s per Receive call, 10 s per gossip iteration pair, 5 s per mutex probe, all confirmed by a goroutine dump inside go-kardia code) and to time the disconnects of group txpool-fetch-race against the fetcher's 500 ms wall-clock timer")
+	r.Assume("the per-peer gossip goroutines are scheduled by the Go runtime: a replay re-runs the whole case (same seed, group, index), which rebuilds the same network, node state and message list; the interleaving with gossip iterations may differ")
 	only := os.Getenv("C18_ONLY")
 	tg := time.Now()
 	lap := func(g string) {
@@ -175,10 +181,16 @@ func Main() {
 	if only == "" || only == "byz" {
 		byzProposer(r)
 		lap("byzProposer")
+		byzVotes(r)
+		lap("byzVotes")
 	}
 	if only == "" || only == "proc" {
 		syncProcessor(r)
 		lap("syncProcessor")
+	}
+	if only == "" || only == "conc" {
+		concurrentGroup(r)
+		lap("concurrent")
 	}
 	if only == "" || only == "race" {
 		fetchRace(r)
@@ -195,9 +207,17 @@ func Main() {
 	if scratchRoot != "" {
 		os.RemoveAll(scratchRoot) // (Finish exits the process)
 	}
-	r.Floor("messages", 1000)
-	r.Floor("mutants_accepted", 100)
-	r.Floor("gossip_waits", 100)
+	if only == "" {
+		// floors: well below what the unchanged tree gives in the quick tier, far above what a workload that no
+		// longer reaches the handlers would give
+		for k, v := range map[string]int64{"messages": 80000, "mutants_accepted": 10000, "gossip_waits": 15000, "peers_stopped_for_error": 3000,
+			"roundtrips": 15000, "mconn_sequences_predicted_exactly": 200, "mconn_messages_delivered": 500, "byz_blocks_decoded_by_victim": 10,
+			"byz_vote_scenarios": 40, "processor_outcome:processed": 10, "processor_outcome:verificationFailure": 10, "fetch_race_attempts": 30,
+			"solicited_block_responses": 20, "messages:blockchain:proto": 1000, "messages:txpool:proto": 400, "messages:evidence:proto": 500, "messages:pex:proto": 250,
+			"messages:consensus:go": 1000, "messages:consensus:bytes": 500} {
+			r.Floor(k, v)
+		}
+	}
 	r.Finish()
 }
 
@@ -206,22 +226,30 @@ var corpusEnvs = []envSpec{{"caughtup", 3, 0}, {"caughtup", 3, -1}, {"caughtup",
 // consCorpus: every structural mutation of every consensus message type, under every
 // peer-state prelude, in three node states.
 func consCorpus(r *core.Run) {
-	n := len(corpusEnvs) * len(consKinds)
-	r.Cases("cons-corpus", n, childOpts, func(c *core.Case) {
-		spec := corpusEnvs[c.I/len(consKinds)]
-		kind := consKinds[c.I%len(consKinds)]
+	type cc struct {
+		spec envSpec
+		kind string
+		tmpl int
+	}
+	var cases []cc
+	for _, k := range consKinds { // kinds outermost: neighbouring cases (same child process) differ in cost
+		for _, sp := range corpusEnvs {
+			cases = append(cases, cc{sp, k, 0})
+			switch k {
+			case "Vote", "HasVote", "VoteSetMaj23", "VoteSetBits", "NewValidBlock":
+				cases = append(cases, cc{sp, k, 1}) // also the precommit / is-commit flavour of the template
+			}
+		}
+	}
+	r.Cases("cons-corpus", len(cases), childOpts, func(c *core.Case) {
+		spec, kind := cases[c.I].spec, cases[c.I].kind
 		rn := open(c, spec)
 		if rn == nil {
 			return
 		}
 		defer func() { rn.close() }()
 		rebuilds := 0
-		tmpls := []int{0}
-		switch kind {
-		case "Vote", "HasVote", "VoteSetMaj23", "VoteSetBits", "NewValidBlock":
-			tmpls = []int{0, 1} // also the precommit / is-commit flavour of the template
-		}
-		for _, tmpl := range tmpls {
+		for _, tmpl := range []int{cases[c.I].tmpl} {
 			for _, variant := range preludes {
 				if tmpl == 1 && variant == "ahead" {
 					continue
@@ -261,7 +289,7 @@ func consCorpus(r *core.Run) {
 
 // consRandom: random sessions (all three mutation levels), the network advancing in between.
 func consRandom(r *core.Run) {
-	r.Cases("cons-random", r.N(32, 1600), childOpts, func(c *core.Case) {
+	r.Cases("cons-random", r.N(32, 640), childOpts, func(c *core.Case) {
 		rg := c.R
 		spec := envSpec{Mode: "caughtup", Height: uint64([]int{0, 2, 2, 3, 3, 4}[rg.Intn(6)]), Stage: rg.Intn(30)}
 		if rg.Intn(4) == 0 {
@@ -397,12 +425,14 @@ func otherCorpus(r *core.Run) {
 }
 
 func otherRandom(r *core.Run) {
-	r.Cases("other-random", r.N(32, 1600), childOpts, func(c *core.Case) {
+	r.Cases("other-random", r.N(32, 480), childOpts, func(c *core.Case) {
 		rg := c.R
 		spec := envSpec{Mode: "caughtup", Height: uint64([]int{0, 2, 3, 4}[rg.Intn(4)]), Stage: rg.Intn(20)}
 		if rg.Intn(3) == 0 {
 			spec = envSpec{Mode: "syncing", Height: uint64(3 + rg.Intn(5))}
 		}
+		PexSeedMode = rg.Intn(4) == 0
+		defer func() { PexSeedMode = false }()
 		rn := open(c, spec)
 		if rn == nil {
 			return
@@ -531,7 +561,7 @@ func (rn *Runner) SyncSession(l *live, r *rand.Rand) bool {
 // been unregistered by the reactor but not yet dropped by the fetcher loop is then
 // asked for the transactions (the fetch runs in a goroutine without recover).
 func fetchRace(r *core.Run) {
-	r.Cases("txpool-fetch-race", r.N(16, 160), childOpts, func(c *core.Case) {
+	r.Cases("txpool-fetch-race", r.N(16, 48), childOpts, func(c *core.Case) {
 		rn := open(c, envSpec{Mode: "caughtup", Height: 2})
 		if rn == nil {
 			return
@@ -611,7 +641,7 @@ func (rn *Runner) FetchRace(r *rand.Rand) {
 // with invalid headers, structurally mutated genuine blocks, byte garbage) and all its
 // parts; the node assembles, decodes, validates and prevotes.
 func byzProposer(r *core.Run) {
-	r.Cases("byz-proposer", r.N(24, 400), childOpts, func(c *core.Case) {
+	r.Cases("byz-proposer", r.N(24, 240), childOpts, func(c *core.Case) {
 		rg := c.R
 		spec := envSpec{Mode: "caughtup", Height: uint64(rg.Intn(3))}
 		rn := open(c, spec)
@@ -654,7 +684,64 @@ func (rn *Runner) ByzSession(l *live, r *rand.Rand, variant int) bool {
 		return false
 	}
 	pol := uint32(0)
-	switch variant % 5 {
+	switch variant % 7 {
+	case 5: // a block carrying duplicate-vote evidence (well-formed, or with one aspect wrong), then possibly mutated inside
+		h := l.StoreH
+		if h == 0 {
+			h = 1
+		}
+		ev := l.evidenceAt(h, r)
+		if ev == nil {
+			return false
+		}
+		what = fmt.Sprintf("block with evidence of height %d", h)
+		switch (variant / 7) % 5 {
+		case 1:
+			ev.TotalVotingPower = -1
+			what += ", total power -1"
+		case 2:
+			ev.VoteB.ValidatorAddress = e.Net.Addrs[0]
+			what += ", votes of two validators"
+		case 3:
+			ev.Timestamp = ev.Timestamp.Add(time.Hour)
+			what += ", wrong time"
+		case 4:
+			ev.VoteA.Signature = ev.VoteA.Signature[:64]
+			what += ", 64-byte signature"
+		}
+		blk := makeBlockWith(e, nil, []types.Evidence{ev})
+		if blk == nil {
+			return false
+		}
+		pb, err := blk.ToProto()
+		if err != nil {
+			return false
+		}
+		if r.Intn(2) == 0 {
+			evs := &pb.Evidence
+			what += " with " + ApplyMutation(evs, r.Intn(CountMutations(evs)), r)
+		}
+		data, hash = marshal(pb), blk.Hash()
+	case 6: // a block carrying unusual transactions (they decode; values at the edges)
+		var txs []*types.Transaction
+		for i := 0; i < 6; i++ {
+			raw, w := rawTx(r, l)
+			tx := new(types.Transaction)
+			if rlp.DecodeBytes(raw, tx) == nil {
+				txs = append(txs, tx)
+				what += w + "; "
+			}
+		}
+		blk := makeBlockWith(e, txs, nil)
+		if blk == nil {
+			return false
+		}
+		pb, err := blk.ToProto()
+		if err != nil {
+			return false
+		}
+		what = "block with transactions: " + what
+		data, hash = marshal(pb), blk.Hash()
 	case 4: // a valid block, but the proposal claims a proof-of-lock round that is not below its round
 		pb, err := genuine.ToProto()
 		if err != nil {
@@ -734,7 +821,7 @@ func (rn *Runner) ByzSession(l *live, r *rand.Rand, variant int) bool {
 // block responses: VerifyCommit, SaveBlock, ApplyBlock) with the genuine chain and
 // with structurally mutated blocks that still pass decoding.
 func syncProcessor(r *core.Run) {
-	r.Cases("blocksync-processor", r.N(8, 200), childOpts, func(c *core.Case) {
+	r.Cases("blocksync-processor", r.N(8, 64), childOpts, func(c *core.Case) {
 		rg := c.R
 		e, err := NewEnv("syncing", 7)
 		if err != nil {
@@ -887,4 +974,235 @@ func makeBlock(e *Env, variant int) *types.Block {
 		hd.GasLimit = 0
 	}
 	return types.NewBlock(hd, txs, commit, base.Evidence().Evidence, trie.NewStackTrie(nil))
+}
+
+// makeBlockWith: the attacker's block with extra transactions / evidence.
+func makeBlockWith(e *Env, extraTxs []*types.Transaction, evs []types.Evidence) *types.Block {
+	base := makeBlock(e, 0)
+	if base == nil {
+		return nil
+	}
+	txs := append([]*types.Transaction(base.Transactions()), extraTxs...)
+	return types.NewBlock(base.Header(), txs, base.LastCommit(), append(base.Evidence().Evidence, evs...), trie.NewStackTrie(nil))
+}
+
+// ---------------------------------------------------------------- Byzantine voter
+
+// byzVotes: the attacker holds one validator key. It sends correctly signed votes with
+// unusual content (nil / fabricated / incomplete / oversized block ids, this round and
+// the next) at the start of a height; the network then commits that height with the
+// attacker's vote sitting in the node's vote sets (tallies, commit construction,
+// evidence against the attacker's validator when its honest twin votes too).
+func byzVotes(r *core.Run) {
+	r.Cases("byz-votes", r.N(8, 96), childOpts, func(c *core.Case) {
+		rg := c.R
+		spec := envSpec{Mode: "caughtup", Height: uint64(1 + rg.Intn(2))}
+		rn := open(c, spec)
+		if rn == nil {
+			return
+		}
+		defer func() { rn.close() }()
+		type sc struct {
+			t   kproto.SignedMsgType
+			bid int
+			dr  uint32
+		}
+		var scs []sc
+		for _, t := range []kproto.SignedMsgType{kproto.PrevoteType, kproto.PrecommitType} {
+			for bid := 0; bid < 6; bid++ {
+				for _, dr := range []uint32{0, 1} {
+					scs = append(scs, sc{t, bid, dr})
+				}
+			}
+		}
+		rg.Shuffle(len(scs), func(i, j int) { scs[i], scs[j] = scs[j], scs[i] })
+		for i, s := range scs {
+			if i >= 12 || rn.broken {
+				break
+			}
+			l := snapshot(rn.e)
+			rn.describe()
+			b := l.RealBID
+			what := "real block id of the previous block"
+			switch s.bid {
+			case 0:
+				b, what = types.BlockID{}, "nil"
+			case 1:
+				b, what = l.FakeBID, "fabricated block id"
+			case 2:
+				b.PartsHeader, what = types.PartSetHeader{}, "hash without parts header (incomplete)"
+			case 3:
+				b.Hash, what = cmn.Hash{}, "parts header without hash (incomplete)"
+			case 4:
+				b.PartsHeader.Total, what = 1<<32-1, "parts total 2^32-1"
+			}
+			v := l.advVote(l.H, l.R+s.dr, s.t, b)
+			pb := toPB(&consensus.VoteMessage{Vote: v})
+			if pb == nil {
+				continue
+			}
+			var sess []Msg
+			if m, ok := l.validMsg("NewRoundStep", l.H, l.R); ok {
+				sess = append(sess, m)
+			}
+			sess = append(sess, Msg{Ch: consensus.VoteChannel, Kind: "Vote", Mut: fmt.Sprintf("signed by the attacker's validator: type %v height %d round %d block id: %s", s.t, l.H, l.R+s.dr, what), Level: "go", Bytes: marshal(pb), Subject: true})
+			rn.outbound, rn.settle = false, 0
+			rn.Session("same", sess)
+			if rn.broken {
+				break
+			}
+			rn.run.Count("byz_vote_scenarios", 1)
+			// the height is decided with that vote in place
+			res := rn.e.Net.RunSync(l.H, 60, nil)
+			if rn.e.V.Dead {
+				rn.advance(rg, 0)
+				break
+			}
+			if !res.Reached {
+				rn.run.Count("byz_vote_height_not_committed", 1)
+				break
+			}
+		}
+	})
+}
+
+// ---------------------------------------------------------------- several peers at once
+
+// concurrentGroup: four peers deliver their (mutated) messages at the same time, each
+// from its own goroutine as their MConnections would; then the usual checks.
+func concurrentGroup(r *core.Run) {
+	opts := childOpts
+	if os.Getenv("C18_RACE") != "" {
+		opts.Race = true // needs bin/vcheck-c18-race (tools/dev.sh C18 ... --race)
+	}
+	r.Cases("concurrent", r.N(8, 96), opts, func(c *core.Case) {
+		rg := c.R
+		spec := envSpec{Mode: "caughtup", Height: uint64(2 + rg.Intn(2)), Stage: rg.Intn(12)}
+		rn := open(c, spec)
+		if rn == nil {
+			return
+		}
+		defer func() { rn.close() }()
+		for round := 0; round < 25 && !rn.broken; round++ {
+			if round%5 == 4 {
+				rn.advance(rg, 1+rg.Intn(5))
+				if rn.broken {
+					return
+				}
+			}
+			l := snapshot(rn.e)
+			const np = 4
+			var sessions [][]Msg
+			var all []Msg
+			for p := 0; p < np; p++ {
+				variant := preludes[rg.Intn(len(preludes))]
+				sess := l.prelude(variant, rg)
+				for j, nm := 0, 2+rg.Intn(4); j < nm; j++ {
+					var m Msg
+					var good bool
+					if rg.Intn(3) != 0 {
+						kind := consKinds[rg.Intn(len(consKinds))]
+						switch rg.Intn(3) {
+						case 0:
+							m, good = l.goMutant(kind, rg)
+						case 1:
+							if cnt := l.countProto(kind, l.H, l.R); cnt > 0 {
+								m, good = l.protoMutant(kind, l.H, l.R, rg.Intn(cnt), rg)
+							}
+						default:
+							m, good = l.validMsg(kind, l.H, l.R)
+						}
+					} else {
+						re := otherReactors[rg.Intn(len(otherReactors))]
+						ks := otherKinds[re]
+						kind := ks[rg.Intn(len(ks))]
+						if rg.Intn(2) == 0 {
+							m, good = l.goMutantOther(re, kind, rg)
+						} else if cnt := l.countOther(re, kind, rg); cnt > 0 {
+							m, good = l.protoMutantOther(re, kind, rg.Intn(cnt), rg, true)
+						}
+					}
+					if good {
+						sess = append(sess, m)
+					}
+				}
+				sessions = append(sessions, sess)
+				all = append(all, sess...)
+			}
+			rn.resetChildLog("concurrent", all)
+			atomic.StoreInt32(&formatLogs, 1)
+			peers := make([]*StubPeer, np)
+			for p := range peers {
+				peers[p] = rn.e.AddPeer(p%2 == 0)
+			}
+			var wg sync.WaitGroup
+			hung := int32(0)
+			for p := 0; p < np; p++ {
+				wg.Add(1)
+				go func(p int) {
+					defer wg.Done()
+					for i, m := range sessions[p] {
+						if !peers[p].BaseService.IsRunning() {
+							return
+						}
+						reactor := rn.e.byCh[m.Ch]
+						if reactor == nil || len(m.Bytes) > rn.e.capByCh[m.Ch] {
+							continue
+						}
+						i, m := i, m
+						rname := reactorName(rn.e, m.Ch)
+						rn.run.Eval(1)
+						rn.run.Count("messages", 1)
+						rn.run.Count("messages_delivered_concurrently", 1)
+						wit := func() interface{} { return rn.witness("concurrent", sessions[p], i, map[string]interface{}{"other_peers_at_the_same_time": np - 1}) }
+						ret, pan := rn.call("Receive("+rname+" "+m.Kind+")", rname, m.Kind, wit, func() { reactor.Receive(m.Ch, peers[p], m.Bytes) })
+						if !ret {
+							atomic.StoreInt32(&hung, 1)
+							rn.hang("Receive("+rname+" "+m.Kind+") with other peers active", rname, m.Kind, "c18.concurrentGroup.func", wit())
+							return
+						}
+						if pan {
+							rn.e.SW.StopPeerForError(peers[p], "panic in Receive")
+							return
+						}
+					}
+				}(p)
+			}
+			wg.Wait()
+			atomic.StoreInt32(&formatLogs, 0)
+			if atomic.LoadInt32(&hung) != 0 {
+				return
+			}
+			last := len(all) - 1
+			if !tryLock(rn.e.V.CS.VerifTryLock) {
+				rn.broken = true
+				rn.c.Violation("mutex-held:consensus:concurrent:ConsensusState.mtx", "ConsensusState.mtx is still held after concurrent deliveries", rn.witness("concurrent", all, last, nil))
+				return
+			}
+			if !rn.e.V.Quiesce() {
+				rn.dead("concurrent", all, last, "consensus", "concurrent")
+				return
+			}
+			for _, p := range peers {
+				if w := rn.e.WaitGossip(p, 2); w != "" {
+					st := goroutineOf("consensus.(*ConsensusManager)." + w)
+					if st != "" && !strings.Contains(st, "time.Sleep") {
+						rn.c.Violation("hang:consensus:concurrent:"+frameKey(st), "gossip routine "+w+" stopped iterating", rn.witness("concurrent", all, last, map[string]interface{}{"goroutine": firstLines(st, 40)}))
+					} else {
+						rn.run.Inconclusive("gossip routine " + w + " made no progress for 10s (concurrent group)")
+					}
+					rn.broken = true
+					return
+				}
+			}
+			rn.run.Count("gossip_waits", 1)
+			rn.run.Count("concurrent_rounds", 1)
+			if !rn.probes(peers[0], "concurrent", all, last, "consensus", "concurrent") {
+				return
+			}
+			for _, p := range peers {
+				rn.e.DropPeer(p)
+			}
+		}
+	})
 }
